@@ -47,6 +47,7 @@ def tasks(tier, seed):
         for sk, gk in F.t3_shards(2, 1, F.T3_KINDS): t.append(('t3', 2, sk, gk, tier, seed))
         for sk, gk in F.t3_shards(0, 3, ['NAND2', 'XOR2', 'INV1']): t.append(('t3', 2, sk, gk, tier, seed))
         for sk, gk in F.t3_shards(2, 2, ['NAND2', 'INV1']): t.append(('t3', 1, sk, gk, tier, seed))
+        t = F.slice_t3_tasks(t, 1500)
     return t
 
 
